@@ -11,7 +11,7 @@ VERIFICATION_MSGS = [
     'decreases not satisfied', 'could not prove termination', 'unreachable()', 'loop invariant',
     'possible bit shift underflow/overflow', 'failed to verify', 'assert_by_compute', 'recommendation not met',
     'index out of bounds', 'could not show', 'cannot show', 'possible overflow', 'possible underflow',
-    'not satisfied',
+    'not satisfied', 'unable to prove post-condition of closure', 'unable to prove', 
 ]
 SAFETY_MSGS = ['arithmetic underflow/overflow', 'division by zero', 'decreases', 'termination', 'bit shift',
                'precondition not satisfied', 'index out of bounds']
